@@ -9,20 +9,16 @@ base = os.environ.get('DEV_BASE')
 if not base or not os.path.exists(base + '/lib.mir') or os.environ.get('REDUMP'):
     if base and os.path.exists(base):
         import shutil; shutil.rmtree(base)
-    b, repo = driver.prepare_scratch('dev')
-    if base:
-        os.rename(b, base); repo = base + '/repo'
-    else:
-        base = b
+    base, repo = driver.prepare_scratch('dev', base)
     mir, t = driver.dump_mir(base, repo)
     print('dumped in %.1fs' % t, base)
 repo = base + '/repo'
-prog = Program(open(base + '/lib.mir').read(), repo, extra_src=[driver.HARNESS_DIR])
+prog = Program(open(base + '/lib.mir').read(), repo, extra_src=[base + '/harness'])
 E = Engine(prog, kf_listed=set(os.environ.get('KF', '').split(',')) - {''})
 h = sys.argv[1]
 maxp = int(sys.argv[2]) if len(sys.argv) > 2 else 100000
 entry = driver.find_harness(prog, h)
-stack = [[]]
+stack = [[c == '1' for c in os.environ['PREFIX']]] if os.environ.get('PREFIX') else [[]]
 n = 0; viol = []; gaps = {}; panics = {}; covers = set(); t0 = time.time()
 while stack and n < maxp:
     p = stack.pop()
@@ -40,4 +36,4 @@ while stack and n < maxp:
 print(f'paths {n} left {len(stack)} violations {len(viol)} time {time.time()-t0:.1f}s queries {E.nqueries} qtime {E.qtime:.1f}s covers {sorted(covers)}')
 for g, p in list(gaps.items())[:10]: print('GAP', g)
 for m, i in list(panics.items())[:10]: print('PANIC', m, i)
-for v in viol[:10]: print('VIOL', v[0], v[1])
+for v in viol[:10]: print('VIOL', v[0], v[1], 'DEC', ''.join('1' if d else '0' for d in v[2]) if os.environ.get('DEC') else '')
